@@ -778,9 +778,9 @@ impl<S: Service + 'static> World<S> {
                         let n = self.number_of_samples(pid);
                         self.pubids.insert(pid, p);
                         self.pubs.insert(p, PubEnt { api, port, loans: Vec::new(), addrs: Vec::new() });
-                        out.push(self.with_counts(ev(a, api, json!({"p": p, "r": "ok", "n": n}))));
+                        out.push(self.with_counts(ev(a, api, json!({"p": p, "r": "ok", "n": n, "deg": "warn"}))));
                     }
-                    Err(e) => out.push(self.with_counts(ev(a, api, json!({"p": p, "r": t.label(&e), "n": 0})))),
+                    Err(e) => out.push(self.with_counts(ev(a, api, json!({"p": p, "r": t.label(&e), "n": 0, "deg": "warn"})))),
                 }
             }
             "drop_pub" => {
@@ -806,9 +806,9 @@ impl<S: Service + 'static> World<S> {
                 match f.create_sub(buf, req) {
                     Ok(port) => {
                         self.subs.insert(s, SubEnt { api, port: Some(port), live: true, held: Vec::new() });
-                        out.push(self.with_counts(ev(a, api, json!({"s": s, "buf": buf, "req": req, "r": "ok"}))));
+                        out.push(self.with_counts(ev(a, api, json!({"s": s, "buf": buf, "req": req, "r": "ok", "deg": "warn"}))));
                     }
-                    Err(e) => out.push(self.with_counts(ev(a, api, json!({"s": s, "buf": buf, "req": req, "r": t.label(&e)})))),
+                    Err(e) => out.push(self.with_counts(ev(a, api, json!({"s": s, "buf": buf, "req": req, "r": t.label(&e), "deg": "warn"})))),
                 }
             }
             "drop_sub" => {
@@ -1061,7 +1061,7 @@ pub fn run_job<S: Service + 'static>(dom: &Domain, name: &str, job: &Value, tabl
     let uses = |api: &str| creator == api || prog.iter().any(|a| a["api"].as_str() == Some(api));
     tw.emit(&json!({"k": "reset", "maxpubs": q.maxpubs, "maxsubs": q.maxsubs, "bufmax": q.bufmax, "hist": q.hist,
                     "borrow": q.borrow, "loan": q.loan, "overflow": if q.overflow { 1 } else { 0 }, "strategy": q.strategy,
-                    "payload": q.payload, "variant": q.variant, "service": name, "creator": creator, "order": order,
+                    "payload": q.payload, "variant": q.variant, "expbuf": 64, "service": name, "creator": creator, "order": order,
                     "mode": job["mode"].as_str().unwrap_or("")}));
     summary.runs += 1;
     let sname = ServiceName::new(name).expect("service name");
